@@ -202,6 +202,12 @@ func runC04(env *Env, tier string) {
 	}
 	hb := []int{30, 5, 10, 60}[ch.Choose("hb", 4)]
 	c.HeartBtInt = hb
+	if c.BeginString >= "FIX.4.4" && ch.Chance("nextexpectedoption", 1, 6) {
+		// the engine announces tag 789 in its Logon; this counterparty does not use the tag, so everything
+		// must work as without the option
+		c.Extra = map[string]string{"EnableNextExpectedMsgSeqNum": "Y"}
+		env.Stat("probe_next_expected_option_peer_without_tag")
+	}
 	s := StartSut(env, c)
 	p := s.P
 	m := &c04Model{env: env, s: s, chunk: c.ChunkSize, plan: map[int]c04Plan{}, received: map[int]bool{}, early: map[int]bool{}, adminEarly: map[int]bool{}}
